@@ -27,6 +27,10 @@ EXPLANATION = (
 )
 
 
+KINDS = ['none', 'earlier', 'self', 'later', 'absolute', 'zero', 'negative', 'legacy_self', 'legacy_later', 'legacy_earlier']
+BAD_KINDS = ('self', 'later', 'legacy_self', 'legacy_later')   # (a zero / negative in-update index of a later update names an earlier job of the batch: judged on the recorded rows)
+
+
 class Sub(bmc.Scenario):
     """prefix: batch with update 1 reserved for n1 jobs, nothing inserted yet"""
 
@@ -47,7 +51,7 @@ class Sub(bmc.Scenario):
             rel = 1 + r + off
             absj = first_abs + r + off
             in_update, absolute = [], []
-            kind = inp.choose(f'{tag}_parent_kind_{r}', ['none', 'earlier', 'self', 'later', 'absolute', 'zero', 'negative'])
+            kind = inp.choose(f'{tag}_parent_kind_{r}', KINDS)
             if kind == 'earlier' and rel > 1:
                 in_update.append(rel - 1)
             elif kind == 'self':
@@ -62,6 +66,14 @@ class Sub(bmc.Scenario):
                 absolute.append(inp.choose(f'{tag}_abs_parent_{r}', list(range(1, J + 1))))
             sp = bo.job_spec(rel, parents=absolute, in_update_parents=in_update, group=0,
                              always_run=inp.choose(f'{tag}_ar_{r}', [False, True]))
+            # the deprecated spelling `parent_ids` (absolute ids), sent next to the modern keys as an older client library
+            # talking to this server may do
+            if kind == 'legacy_self':
+                sp['parent_ids'] = [absj]
+            elif kind == 'legacy_later':
+                sp['parent_ids'] = [absj + 1]
+            elif kind == 'legacy_earlier' and absj > 1:
+                sp['parent_ids'] = [absj - 1]
             sp['process']['mount_docker_socket'] = False
             specs.append(sp)
             res.append(('ic1', inp.sint(f'{tag}_cores_{r}', lo=1)))
@@ -132,6 +144,18 @@ def asserts(sc):
         n = sc.n1 if sc.last_kind == 'submit1' else sc.sizes.J - sc.n1
         out.append(('a bunch is inserted completely or not at all', b_or(oracle.eq(new, 0), oracle.eq(new, n))))
         out.append(('a rejected bunch leaves every table unchanged', A.imp(oracle.eq(new, 0), A.db_unchanged(prev, db))))
+        # request level: a bunch in which some job NAMES itself or a later job as a parent (under whatever
+        # key) is not accepted - also when the server would drop that dependency instead of recording it
+        tag = 'u1' if sc.last_kind == 'submit1' else 'u2'
+        named_bad = False
+        for r in range(n):
+            nm = f'{tag}_parent_kind_{r}'
+            if sc.inp.concrete:
+                named_bad = named_bad or KINDS[sc.inp.values.get(nm, 0)] in BAD_KINDS
+            else:
+                v = z3.Int(nm)
+                named_bad = b_or(named_bad, b_or(*[v == KINDS.index(k) for k in BAD_KINDS]))
+        out.append(('a bunch naming a self or later dependency is rejected', A.imp(named_bad, oracle.eq(new, 0))))
     return out
 
 
